@@ -3,6 +3,7 @@ package main
 import (
 	"encoding/json"
 	"flag"
+	"fmt"
 	"os"
 	"strings"
 	"time"
@@ -34,6 +35,15 @@ func cmdNest(args []string) error {
 		n := realParse([]byte(src), 0).Cnt
 		mb := minBudget(src)
 		rows = append(rows, row{Shape: "smallest accepted budget of " + src, Budget: mb, Steps: n, Outcome: "threshold", Ok: n == 0 || mb == n})
+	}
+	// no budget (and budget 0) means unlimited: an input that needs millions of steps still parses, like under a budget above its step count
+	{
+		src := strings.Repeat("(", 7) + "a == 1" + strings.Repeat(")", 7)
+		n := realParse([]byte(src), 0).Cnt
+		for _, o := range [][]bexpr.Option{nil, {bexpr.WithMaxExpressions(0)}, {bexpr.WithMaxExpressions(1 << 26)}, {bexpr.WithMaxExpressions(0), bexpr.WithTagName("json")}} {
+			ev, err := bexpr.CreateEvaluator(src, o...)
+			rows = append(rows, row{Depth: 7, Shape: fmt.Sprintf("unlimited parse of 7 nested parentheses (%d options)", len(o)), Steps: n, Outcome: fmt.Sprint(err), Ok: ev != nil && err == nil})
+		}
 	}
 	for _, depth := range []int{16, 24, 32, 64} {
 		for _, shape := range []string{"balanced", "unmatched", "spaced"} {
